@@ -20,6 +20,7 @@ DB = ["udt_def = {'name': 'MyUdt', 'attributes': ['x', 'flag', 'y'], 'template':
       "'arr': {'tag_name': 'arr', 'tag_type': 'atomic', 'data_type': 'INT', 'data_type_name': 'INT', 'dim': 1, 'dimensions': [10, 0, 0], 'instance_id': 11, 'type_class': pycomm3.cip.data_types.Array(10, pycomm3.cip.data_types.INT)}, "
       "'ba': {'tag_name': 'ba', 'tag_type': 'atomic', 'data_type': 'DWORD', 'data_type_name': 'DWORD', 'dim': 1, 'dimensions': [4, 0, 0], 'instance_id': 12, 'type_class': pycomm3.cip.data_types.Array(4, pycomm3.cip.data_types.DWORD)}, "
       "'s': {'tag_name': 's', 'tag_type': 'struct', 'data_type': str_def, 'data_type_name': 'STRING', 'dim': 0, 'dimensions': [0, 0, 0], 'instance_id': 13, 'type_class': str_def['type_class']}, "
+      "'sa': {'tag_name': 'sa', 'tag_type': 'struct', 'data_type': str_def, 'data_type_name': 'STRING', 'dim': 1, 'dimensions': [3, 0, 0], 'instance_id': 16, 'type_class': pycomm3.cip.data_types.Array(3, str_def['type_class'])}, "
       "'u': {'tag_name': 'u', 'tag_type': 'struct', 'data_type': udt_def, 'data_type_name': 'MyUdt', 'dim': 0, 'dimensions': [0, 0, 0], 'instance_id': 14, 'type_class': udt_def['type_class']}, "
       "'Program:Main.p': {'tag_name': 'Program:Main.p', 'tag_type': 'atomic', 'data_type': 'REAL', 'data_type_name': 'REAL', 'dim': 0, 'dimensions': [0, 0, 0], 'instance_id': 15, 'type_class': pycomm3.cip.data_types.REAL}}",
       f"d = {LD}('10.0.0.1')", "d._tags = tags"]
